@@ -1001,8 +1001,15 @@ func (p *partition) handleLeaderOffsetRequest(msg *nats.Msg) {
 		p.srv.logger.Errorf("Invalid leader epoch offset request for partition %s: %v", p, err)
 		return
 	}
+	endOffset := p.log.LastOffsetForLeaderEpoch(req.LeaderEpoch)
+	if req.LeaderEpoch < p.log.LastLeaderEpoch() {
+		// This is the start offset of the first leader epoch larger than the
+		// requested one, so the last offset of the requested epoch is the one
+		// before it. The follower truncates everything after the end offset.
+		endOffset--
+	}
 	resp, err := proto.MarshalLeaderEpochOffsetResponse(&proto.LeaderEpochOffsetResponse{
-		EndOffset: p.log.LastOffsetForLeaderEpoch(req.LeaderEpoch),
+		EndOffset: endOffset,
 	})
 	if err != nil {
 		panic(err)
